@@ -4,7 +4,8 @@
    data extracted independently from the qrules transitions, with the implementation's
    model.expression / components / amplitudes (SymPy ==) on every case. *)
 From AV Require Import Helicity Helicity_proofs.
-From AVchk Require Import C02_lemmas.
+From AV Require Import AcEq AcEq_proofs.
+From AVchk Require Import C02_lemmas Tie_C02 C02_tie_lemmas.
 Open Scope C_scope.
 
 (* For EVERY reaction data (any number of outer-projection groups, topologies, chains, nodes; any
@@ -15,8 +16,9 @@ Open Scope C_scope.
         prefactor * coefficient * prod over nodes of CG * CG * H * conj-D(J,m,l1-l2;phi,theta) * lineshape |^2 *)
 Theorem C02_intensity_is_helicity_formula :
   forall (ρ : envC) (gs : list hgroup),
-    wdC ρ (intensity_expr gs) /\ denC ρ (intensity_expr gs) = intensity_sem ρ gs.
-Proof. intros ρ gs. split; [apply wd_intensity_expr|apply intensity_expr_denotes_formula]. Qed.
+    denC ρ (intensity_expr gs) = intensity_sem ρ gs
+    /\ (data_wd ρ gs -> wdC ρ (intensity_expr gs)).   (* defined wherever the assigned lineshapes are *)
+Proof. intros ρ gs. split; [apply intensity_expr_denotes_formula|apply wd_intensity_expr]. Qed.
 
 (* each named component equals the corresponding partial sum *)
 Theorem C02_intensity_component_is_group_term :
@@ -37,6 +39,27 @@ Theorem C02_group_term_real_nonneg :
   forall ρ (g : hgroup), snd (group_sem ρ g) = 0%R /\ (0 <= fst (group_sem ρ g))%R.
 Proof. exact group_sem_real_nonneg. Qed.
 
+(* The verified AC-equality checker: whenever it answers true the two trees have the same value at
+   every point (for every interpretation of WignerD, CG, lineshapes, ...) *)
+Theorem C02_ac_equality_checker_sound :
+  forall ρ fuel a b, aceq fuel a b = true -> denC ρ a = denC ρ b.
+Proof. exact aceq_sound. Qed.
+
+(* IN-COQ TIE.  For every case regenerated from the current /repo in this run (model.expression of
+   each corpus reaction, plus coupling/naming/dynamics variants) and EVERY numerical point, the
+   implementation's expression denotes the helicity formula over the independently extracted data. *)
+Theorem C02_current_expressions_denote_formula :
+  forall name impl data, In (name, (impl, data)) tie_cases ->
+  forall ρ, denC ρ impl = intensity_sem ρ data.
+Proof. exact tie_case_denotes. Qed.
+
+Example C02_tie_cases_were_generated : (10 <= length tie_cases)%nat.
+Proof. exact tie_cases_nonempty. Qed.
+Example C02_tie_detects_wrong_wigner_index :
+  aceq 40 (intensity_expr ex_model) (intensity_expr (swap_first_node ex_model)) = false
+  /\ aceq 40 (intensity_expr ex_model) (intensity_expr ex_model) = true.
+Proof. exact tie_detects_wrong_index. Qed.
+
 Example C02_example_shape :
   match intensity_expr ex_model with
   | App HAdd [App HPow [App HAbs [App HAdd [App HAdd [App HMul (Num _ :: Sym "C_f0"%string :: _); _]]]; Num _]; _] => True
@@ -45,6 +68,8 @@ Example C02_example_shape :
 Proof. exact ex_shape. Qed.
 
 Print Assumptions C02_intensity_is_helicity_formula.
+Print Assumptions C02_ac_equality_checker_sound.
+Print Assumptions C02_current_expressions_denote_formula.
 Print Assumptions C02_intensity_component_is_group_term.
 Print Assumptions C02_amplitude_is_coherent_sum_of_chains.
 Print Assumptions C02_chain_component_is_chain_term.
